@@ -449,4 +449,14 @@ pub fn run(r: &mut Runner) {
             }
         });
     }
+    {
+        let org = crate::organic::states(if quick { 1 } else { 2 });
+        let no = org.len();
+        r.notes.push(format!("organic operands: {} chain states (depth {} from the C01 seeds)", no, if quick { 1 } else { 2 }));
+        r.par("organic operands (chain results) -> integers / floats", no.div_ceil(512), no as u64, |c, l| {
+            for i in (c * 512)..((c + 1) * 512).min(no) {
+                judge_to_all(org[i], l, &rec, (1u64 << 50) + i as u64);
+            }
+        });
+    }
 }
